@@ -185,7 +185,6 @@ if os.environ.get('SM_EXPERIMENTAL'):
     for _t in _p['defs'].values():
         _t.pop('KNOWN_F_C02_COOKIE_ADDN', None)
     UNITS.append(_p)
-    UNITS.append(_qs)
 
 QS_LOOPS = {'count': 2,
     # length of the content: every escape pair counts one
@@ -210,3 +209,5 @@ _qs = U(
              'excluded by the copy loop invariant outpos <= outlen; bstr_adjust_len: real code (bstr.c linked)',
              'the content itself (escape pairs collapsed, ends at the first unescaped quote, *endoffset = that quote) relates output index to input index non-affinely and stays with the '
              'bounded unit ref_extract_quoted_string'])
+if os.environ.get('SM_EXPERIMENTAL'):
+    UNITS.append(_qs)
